@@ -200,6 +200,7 @@ func (v *SliceSchema) process(ctx *p.SchemaCtx) {
 		subCtx.Data = item
 		subCtx.ValPtr = ptr
 		subCtx.Path.Push(&k)
+		subCtx.Exit = false
 		subCtx.CanCatch = false
 		v.schema.process(subCtx)
 		subCtx.Path.Pop()
